@@ -148,7 +148,9 @@ var corpusNames = map[string]bool{"struct": true, "json": true, "math": true, "t
 
 func isPredeclared(corpus bool) func(string) bool {
 	if corpus {
-		return func(n string) bool { return corpusNames[n] }
+		// Unknown names (the tests' own predeclared helpers such as hasfields, fibonacci) are accepted so
+		// that the chunk still compiles; using one fails at run time, identically before and after.
+		return func(n string) bool { return corpusNames[n] || !starlark.Universe.Has(n) }
 	}
 	return func(n string) bool { return hostNames[n] }
 }
